@@ -1,7 +1,7 @@
 """C09 — item data is published race-free to every reader (declared happens-before edges)."""
 from cfg import Inconclusive, op_place, show, walk
 from common import (STRENGTH_LOAD, STRENGTH_STORE, atomic_op, calls_to, callee, callee_names,
-                    closure_consumer, closure_creations, field_chain, fn_of, find_fn, is_call_to,
+                    closure_consumer, spawn_closures, closure_creations, field_chain, fn_of, find_fn, is_call_to,
                     ordering_of, peel, site, uses_of_local, head_sources)
 
 PROP = "C09"
@@ -158,9 +158,13 @@ def rule_matchers_confined(ctx):
         else:
             ctx.violation("%s|Matchers::get|1" % fn.path, site(fn, bi),
                           "per-thread matcher scratch memory accessed outside the worker run (root body %s): the unsafe `impl Sync for Matchers` relies on one matcher per pool thread" % root)
-    # 2. process_new_items only from run; run only from the spawn closure
+    # 2. process_new_items only from run; run only from the closure tick_inner hands to the pool
+    ti = find_fn(facts, "nucleo", "Nucleo::<T>::tick_inner")
+    spawned = spawn_closures(ti)
+    if not spawned:
+        raise Inconclusive("no closure handed to ThreadPool::spawn found in tick_inner")
     for target, allowed in (("worker::Worker::<T>::process_new_items", ("worker::Worker::<T>::run",)),
-                            ("worker::Worker::<T>::run", ("Nucleo::<T>::tick_inner::{closure#0}",))):
+                            ("worker::Worker::<T>::run", tuple(c[3] for c in spawned))):
         cs = calls_to(facts, "nucleo", lambda t, target=target: callee(t) == target)
         ctx.floor("callers of " + target, len(cs), 1)
         for fn, bi, t in cs:
@@ -170,11 +174,8 @@ def rule_matchers_confined(ctx):
                 ctx.violation("%s|%s|1" % (fn.path, target), site(fn, bi),
                               "%s called from %s; it may only run on the matcher's own pool (via the closure spawned by tick_inner)" % (target, fn.path))
     # 3. that closure is consumed by ThreadPool::spawn on self.pool
-    ti = find_fn(facts, "nucleo", "Nucleo::<T>::tick_inner")
-    cl = [c for c in closure_creations(ti) if c[3] == "Nucleo::<T>::tick_inner::{closure#0}"]
-    if not cl:
-        raise Inconclusive("spawn closure not found in tick_inner")
-    bi, si, local, path, caps = cl[0]
+    cl = spawned
+    bi, si, local, path, caps = cl[0][:5]
     cons = closure_consumer(ti, local)
     if cons is None:
         raise Inconclusive("cannot follow the run closure to its consumer")
@@ -235,10 +236,10 @@ def rule_matchers_confined(ctx):
 def rule_guard_moved(ctx):
     facts = ctx.facts
     ti = find_fn(facts, "nucleo", "Nucleo::<T>::tick_inner")
-    cl = [c for c in closure_creations(ti) if c[3] == "Nucleo::<T>::tick_inner::{closure#0}"]
+    cl = spawn_closures(ti)
     if not cl:
-        raise Inconclusive("spawn closure not found")
-    bi, si, local, path, caps = cl[0]
+        raise Inconclusive("no closure handed to ThreadPool::spawn found in tick_inner")
+    bi, si, local, path, caps = cl[0][:5]
     guard_caps = [(n, o) for n, o in caps.items() if "move" in o or "copy" in o]
     found = False
     for n, o in caps.items():
